@@ -122,6 +122,10 @@ pub enum BOp {
     /// the owner of the long-lived engine disables / re-enables a rule in its knowledge base and rebuilds the
     /// conclusion index; from then on 'the rule set' is the set of enabled rules
     ToggleRule(u8),
+    /// the CALLER uses the undo-frame API on its own facts around its queries ("what if"): 0 begin, 1 roll back,
+    /// 2 commit (no-ops when no caller frame is open). C11 only: a rolled-back write is a change of the caller's
+    /// facts like any other, and the next answer must be a fresh engine's answer on the facts as they now stand
+    CallerFrame(u8),
 }
 
 #[derive(Clone, Debug, Serialize, Deserialize, PartialEq)]
@@ -839,6 +843,7 @@ fn run_search(
         obs.count("probe.rule_action_that_appends_to_an_array_fact");
     }
     let mut asked: BTreeSet<String> = BTreeSet::new();
+    let mut caller_frames = 0usize;
     for (step, op) in ops.iter().enumerate() {
         let site = site_of(strategy);
         let active_rules: Vec<BRule> = rules.iter().zip(&enabled).filter(|(_, e)| **e).map(|(r, _)| r.clone()).collect();
@@ -908,6 +913,29 @@ fn run_search(
             BOp::SetFact(f, l) => {
                 facts.set(&fkey(*f), lit_value(types[*f as usize % NF], *l));
                 obs.count("probe.caller_changed_a_fact");
+            }
+            BOp::CallerFrame(k) => {
+                if prop == "C11" {
+                    match k % 3 {
+                        0 => {
+                            facts.begin_undo_frame();
+                            caller_frames += 1;
+                        }
+                        1 if caller_frames > 0 => {
+                            let before = snapshot(&facts);
+                            facts.rollback_undo_frame();
+                            caller_frames -= 1;
+                            if snapshot(&facts) != before {
+                                obs.count("probe.caller_rolled_back_a_frame_that_had_changed_facts");
+                            }
+                        }
+                        2 if caller_frames > 0 => {
+                            facts.commit_undo_frame();
+                            caller_frames -= 1;
+                        }
+                        _ => {}
+                    }
+                }
             }
             BOp::Retype(f) => {
                 if prop == "C11" {
@@ -1381,7 +1409,7 @@ fn gen_search(rng: &mut Rng, hash_seed: u64, c11_ops: bool, with_negation: bool)
     let nops = 1 + rng.usize(6);
     let mut ops = Vec::new();
     for _ in 0..nops {
-        let w = rng.weighted(&[55, 20, 5, 5, if attach_rete { 8 } else { 0 }, if attach_rete { 6 } else { 0 }, if c11_ops { 8 } else { 0 }, 6, 5, if c11_ops { 8 } else { 0 }, 6]);
+        let w = rng.weighted(&[55, 20, 5, 5, if attach_rete { 8 } else { 0 }, if attach_rete { 6 } else { 0 }, if c11_ops { 8 } else { 0 }, 6, 5, if c11_ops { 8 } else { 0 }, 6, if c11_ops { 4 } else { 0 }]);
         ops.push(match w {
             0 => {
                 if with_negation && rng.chance(1, 4) {
@@ -1399,6 +1427,7 @@ fn gen_search(rng: &mut Rng, hash_seed: u64, c11_ops: bool, with_negation: bool)
             8 => BOp::SetFactNull(rng.below(NF as u64) as u8),
             9 => BOp::QueryAggregate(rng.below(9) as u8, rng.chance(1, 3)),
             10 => BOp::ToggleRule(rng.below(16) as u8),
+            11 => BOp::CallerFrame(*rng.pick(&[0u8, 0, 1, 1, 2])),
             _ => BOp::SetConfig { strategy: *rng.pick(&[0u8, 0, 1, 2]), max_solutions: *rng.pick(&[1usize, 1, 3]), memo: rng.chance(2, 3), max_depth: if rng.chance(1, 3) { Some(*rng.pick(&[0usize, 1, 2, 3, 4])) } else { None } },
         });
     }
@@ -1407,6 +1436,16 @@ fn gen_search(rng: &mut Rng, hash_seed: u64, c11_ops: bool, with_negation: bool)
         let g = rng.below(3) as u8;
         ops.push(BOp::Query(g));
         ops.push(gen_set(rng, true));
+        ops.push(BOp::Query(g));
+    }
+    // C11, one history in six ends with the caller's "what if": ask, open a frame, write, ask, roll back, ask again
+    if c11_ops && rng.chance(1, 6) {
+        let g = rng.below(3) as u8;
+        ops.push(BOp::Query(g));
+        ops.push(BOp::CallerFrame(0));
+        ops.push(gen_set(rng, true));
+        ops.push(BOp::Query(g));
+        ops.push(BOp::CallerFrame(1));
         ops.push(BOp::Query(g));
     }
     ops.push(BOp::Query(rng.below(3) as u8));
